@@ -1116,3 +1116,193 @@ func ruleChildPure(c *report.Ctx) {
 		}
 	}
 }
+
+// ruleExplicitInputsDistinct (C02): the explicit-input path rejects a repeated outpoint.
+func ruleExplicitInputsDistinct(c *report.Ctx) {
+	p := c.P
+	c.Rule("explicit-inputs-distinct", "constructTxIn adds an input only after a membership test on the set of outpoints already added failed, and records it in that set: the same output cannot be spent twice by one draft (its value would be counted twice)", 1)
+	f := fn(c, pkgWallet, "WalletManager", "constructTxIn")
+	addTxIn := p.Fn(pkgWire, "MsgTx", "AddTxIn")
+	if f == nil || addTxIn == nil {
+		c.Lost("constructTxIn / wire.MsgTx.AddTxIn")
+		return
+	}
+	sites := calls(f, addTxIn)
+	if len(sites) == 0 {
+		c.Fail(sk(f)+":AddTxIn", "anchor lost: constructTxIn no longer adds inputs through MsgTx.AddTxIn", p.Pos(f.Pos()))
+		return
+	}
+	isOutPointKey := func(v ssa.Value) bool {
+		t := v.Type()
+		if n := an.NamedOf(t); n != nil && n.Obj().Name() == "OutPoint" {
+			return true
+		}
+		d := p.Desc(v)
+		return strings.Contains(d, "PreviousOutPoint") || strings.Contains(d, "NewOutPoint")
+	}
+	for i, s := range sites {
+		key := siteKey(f, "AddTxIn-after-duplicate-test", i+1)
+		var set ssa.Value
+		tested := an.AnyAtom(p.GuardsOf(s), func(a an.Atom) bool {
+			if a.Op != token.ILLEGAL || a.Truth {
+				return false
+			}
+			ex, ok := a.X.(*ssa.Extract)
+			if !ok || ex.Index != 1 {
+				return false
+			}
+			lk, ok := ex.Tuple.(*ssa.Lookup)
+			if !ok || !lk.CommaOk || !isOutPointKey(lk.Index) {
+				return false
+			}
+			set = lk.X
+			return true
+		})
+		recorded := false
+		if tested {
+			an.Instrs(f, func(in ssa.Instruction) {
+				if mu, ok := in.(*ssa.MapUpdate); ok && mu.Map == set && isOutPointKey(mu.Key) && loopHeaderOf(in.Block()) != nil {
+					recorded = true
+				}
+			})
+		}
+		switch {
+		case tested && recorded:
+			c.OK(key, "guarded by a failed lookup in the set of outpoints added so far; the outpoint is then recorded", posOf(c, s))
+		case tested:
+			c.Fail(key, "the duplicate test reads a set that the loop never fills", posOf(c, s))
+		default:
+			c.Fail(key, "an explicit input is added without testing whether the same outpoint was already added: a request naming one output twice yields a transaction that spends it twice and whose input total (and therefore change) counts its value twice", posOf(c, s), an.AtomTexts(p.GuardsOf(s))...)
+		}
+	}
+}
+
+// ruleOverlaySequence (C11): every write to the transaction overlay takes a fresh sequence number.
+func ruleOverlaySequence(c *report.Ctx) {
+	p := c.P
+	c.Rule("overlay-sequence", "batch.Put / batch.Delete increment the overlay's sequence counter and record the new number with the entry on every path: reads inside the transaction order a key's put and delete by these numbers", 2)
+	bt := p.Type(pkgLDB, "batch")
+	if bt == nil {
+		c.Lost("ldb.batch")
+		return
+	}
+	for _, t := range []struct{ fn, field string }{{"Put", "puts"}, {"Delete", "deletes"}} {
+		f := fn(c, pkgLDB, "batch", t.fn)
+		if f == nil {
+			continue
+		}
+		// (1) every return passes a store seqNo = seqNo + 1
+		incr := func(in ssa.Instruction) bool {
+			st, ok := in.(*ssa.Store)
+			if !ok {
+				return false
+			}
+			fa, ok := st.Addr.(*ssa.FieldAddr)
+			if !ok || derefStructT(fa.X.Type()).Field(fa.Field).Name() != "seqNo" {
+				return false
+			}
+			return isAddOne(st.Val, nil)
+		}
+		s := &an.Search{P: p, Fn: f, Cut: incr, GoalReturn: func(r *ssa.Return, pred *ssa.BasicBlock) bool { return true }}
+		key := sk(f) + ":fresh-sequence-number"
+		if w := s.Run(f.Blocks[0], 0, nil); w != nil {
+			c.Fail(key, sk(f)+" can return without taking a new sequence number: a key that is put, deleted and put again in one transaction keeps the older number, so reads inside the transaction (Get, prefix reads, Clear) still treat it as deleted although the value is committed", p.Pos(f.Pos()), w...)
+			continue
+		}
+		// (2) every return passes a map update of the overlay table
+		upd := func(in ssa.Instruction) bool {
+			mu, ok := in.(*ssa.MapUpdate)
+			return ok && strings.HasSuffix(p.Desc(mu.Map), "batch."+t.field)
+		}
+		s2 := &an.Search{P: p, Fn: f, Cut: upd, GoalReturn: func(r *ssa.Return, pred *ssa.BasicBlock) bool { return true }}
+		if w := s2.Run(f.Blocks[0], 0, nil); w != nil {
+			c.Fail(key, sk(f)+" can return without recording the entry (with its new sequence number) in batch."+t.field, p.Pos(f.Pos()), w...)
+			continue
+		}
+		c.OK(key, "seqNo++ and batch."+t.field+"[k] updated on every path", p.Pos(f.Pos()))
+	}
+}
+
+// ruleWholeBucketLimit (C11): an iterator without an upper bound ends at the prefix successor of the bucket prefix.
+func ruleWholeBucketLimit(c *report.Ctx) {
+	p := c.P
+	c.Rule("whole-bucket-limit", "when no upper bound is given, the iterator's limit is BytesPrefix(bucket prefix).Limit (the smallest key greater than every key of the bucket), not a constant suffix", 1)
+	f := fn(c, pkgLDB, "levelBucket", "NewIterator")
+	bp := fn(c, pkgDB, "", "BytesPrefix")
+	rng := p.Type(pkgDB, "Range")
+	if f == nil || bp == nil || rng == nil {
+		return
+	}
+	n := 0
+	for _, st := range fieldStores(f, rng, "Limit") {
+		empty := an.AnyAtom(p.GuardsOf(st), func(a an.Atom) bool {
+			return a.Op == token.EQL && strings.HasPrefix(p.Desc(a.X), "len(") && strings.HasSuffix(p.Desc(a.X), "Range.Limit)") && p.Desc(a.Y) == "0"
+		})
+		if !empty {
+			continue
+		}
+		n++
+		key := siteKey(f, "limit-when-unbounded", n)
+		v := st.(*ssa.Store).Val
+		ok := false
+		if ld, isLd := v.(*ssa.UnOp); isLd && ld.Op == token.MUL {
+			if fa, isFA := ld.X.(*ssa.FieldAddr); isFA {
+				if call, isCall := fa.X.(*ssa.Call); isCall && call.Call.StaticCallee() == bp {
+					ok = true
+				}
+			}
+		}
+		if ok {
+			c.OK(key, "= BytesPrefix(innerKeyForIterator(…)).Limit", posOf(c, st))
+		} else {
+			c.Fail(key, "the limit of an unbounded iteration is "+p.Desc(v)+", not the prefix successor of the bucket prefix: keys of the bucket at or above that value (e.g. keys starting with 0xff) are skipped by whole-bucket iteration and Seek", posOf(c, st))
+		}
+	}
+	if n == 0 {
+		c.Fail(sk(f)+":limit-when-unbounded", "anchor lost: NewIterator no longer sets the limit for the unbounded case", p.Pos(f.Pos()))
+	}
+}
+
+// rulePayloadBeforeFeeLoop (C02): the payload is attached before the fee loop estimates the size.
+func rulePayloadBeforeFeeLoop(c *report.Ctx) {
+	p := c.P
+	c.Rule("payload-before-fee-loop", "EstimateTxFee attaches the payload to the draft before autoConstructTxInAndChangeTxOut sizes it: the fee loop reads len(msgTx.Payload)", 1)
+	f := fn(c, pkgWallet, "WalletManager", "EstimateTxFee")
+	ac := fn(c, pkgWallet, "WalletManager", "autoConstructTxInAndChangeTxOut")
+	sp := p.Fn(pkgWire, "MsgTx", "SetPayload")
+	if f == nil || ac == nil || sp == nil {
+		c.Lost("EstimateTxFee / autoConstructTxInAndChangeTxOut / wire.MsgTx.SetPayload")
+		return
+	}
+	// the fee loop really reads the payload length (otherwise the order is immaterial)
+	reads := false
+	an.Instrs(ac, func(in ssa.Instruction) {
+		if fa, ok := in.(*ssa.FieldAddr); ok {
+			if st := derefStructT(fa.X.Type()); st != nil && st.Field(fa.Field).Name() == "Payload" {
+				reads = true
+			}
+		}
+	})
+	sps, acs := calls(f, sp), calls(f, ac)
+	if len(acs) == 0 {
+		c.Fail(sk(f)+":fee-loop", "anchor lost: EstimateTxFee no longer calls autoConstructTxInAndChangeTxOut", p.Pos(f.Pos()))
+		return
+	}
+	for i, a := range acs {
+		key := siteKey(f, "SetPayload-dominates-fee-loop", i+1)
+		ok := false
+		for _, s := range sps {
+			if instrDominates(s, a) && an.CallOf(s).Args[0] == an.CallOf(a).Args[1] {
+				ok = true
+			}
+		}
+		switch {
+		case ok:
+			c.OK(key, "payload attached to the same draft before it is sized", posOf(c, a))
+		case !reads:
+			c.OK(key, "the fee loop does not read the draft's payload", posOf(c, a))
+		default:
+			c.Fail(key, "the draft is sized by the fee loop before the payload is attached: the reported fee ignores the payload bytes and falls below the relay minimum for the signed size of a payload-carrying transaction", posOf(c, a))
+		}
+	}
+}
